@@ -2,6 +2,7 @@
 """Store a confirmed seeded change: vp/seedstore.py <id> <needs_to_manifest> <caught_by> <missed_first>"""
 import sys, os, shutil, json
 pid, needs, caught, missed = sys.argv[1:5]
+prop = pid[:3]
 src = f"/tmp/mut/s_{pid}/deliver"
 dst = f"/verif/seeded/{pid}"
 os.makedirs(dst, exist_ok=True)
@@ -9,12 +10,12 @@ for f in os.listdir(src):
     if os.path.getsize(os.path.join(src, f)) < 400000:
         shutil.copy(os.path.join(src, f), dst)
 meta = {
- "property": pid,
- "breaks": f"the property {pid} (see properties.jsonl)",
+ "property": prop,
+ "breaks": f"the property {prop} (see properties.jsonl)",
  "needs_to_manifest": needs,
  "what_i_ran": [
   f"vp/seedconfirm.sh {pid}  (demo exit 0 on the original library, non-zero on the changed one; repository stable tests 164/164 with the patch in a scratch test build)",
-  f"vp/seedcheck.sh seeded/{pid}/patch.diff {pid} [--stage ...]  (check run against a scratch worktree with the patch applied, private build dir)"
+  f"vp/seedcheck.sh seeded/{pid}/patch.diff {prop} [--stage ...]  (check run against a scratch worktree with the patch applied, private build dir)"
  ],
  "caught_by": caught,
  "missed_by_the_check_as_first_built": missed,
